@@ -9,6 +9,7 @@ import (
 	"regexp"
 	"sort"
 	"strings"
+	"time"
 
 	"golang.org/x/tools/go/ssa"
 )
@@ -111,19 +112,19 @@ func (x *Exec) atReturn(st *State, fr *Frame, res []Value, v *ssa.Return) {
 // ---------- verification of one function in one configuration
 
 type FuncResult struct {
-	Key       string
-	Label     string
-	Cfg       string
-	Mode      string
-	Contract  *Contract
-	Obls      []*Obligation
-	Errors    []string
-	Trusted   []string
-	Havocked  []string
-	Inlined   []string
-	Notes     []string
-	Paths     int
-	Returns   int
+	Key      string
+	Label    string
+	Cfg      string
+	Mode     string
+	Contract *Contract
+	Obls     []*Obligation
+	Errors   []string
+	Trusted  []string
+	Havocked []string
+	Inlined  []string
+	Notes    []string
+	Paths    int
+	Returns  int
 }
 
 func (x *Exec) setupEntry() (*State, error) {
@@ -246,6 +247,7 @@ func VerifyFunc(prog *Program, db *ContractDB, fn *ssa.Function, ct *Contract, c
 		Assume: prefs, Bank: x.b, Expect: "sat", Info: "precondition is satisfiable", Property: propsOf(ct)})
 	x.paths = 1
 	x.work = []*State{st}
+	x.deadline = time.Now().Add(150 * time.Second)
 	x.run()
 	if len(x.errs) == 0 {
 		// vacuity: some return (or declared panic) is reachable
